@@ -32,8 +32,15 @@ def bounds(tier, seed):
             "large": "n in {200,500,1000} x cluster sizes {1,2,5,10,50,100,150,200}, probe 250" if tier == "thorough" else "thorough only"}
 
 
-def starts(seed):
+def starts(seed, tier="quick"):
     out = []
+    if tier == "thorough":
+        d = _dt.datetime(2019, 1, 1)
+        while d < _dt.datetime(2021, 1, 1):
+            out.append(d + _dt.timedelta(hours=13, minutes=30, seconds=15, milliseconds=250) if d.day % 2 else d)
+            d += _dt.timedelta(days=1)
+        out.append(_dt.datetime(1999, 12, 31, 23, 59, 59, 999000))
+        return out
     for y in (2019, 2020):
         for m in range(1, 13):
             for d in (28, 29, 30, 31, 1):
@@ -105,8 +112,12 @@ def degenerate(data):
 def judge(case, acc=None):
     data = copy.deepcopy(case["data"])
     backend = case["backend"]
-    form, direction, algo, bi, ticks = case["opt"]
-    opts = options_for(case["kind"], form, direction, algo, bi, ticks)
+    if case["opt"][0] == "big":
+        form, direction = "full", "up"
+        opts = big_options(case["opt"][1])
+    else:
+        form, direction, algo, bi, ticks = case["opt"]
+        opts = options_for(case["kind"], form, direction, algo, bi, ticks)
     d_eff = direction if form in ("partial", "full") else "right"
     try:
         with horizon(case.get("budget", 30.0)):
@@ -125,7 +136,7 @@ def judge(case, acc=None):
     n = len(case["data"])
     if not (len(R["dots"]) == len(R["links"]) == len(R["boxes"]) == n):
         return "C11:count", "%d data but %d dots, %d links, %d boxes" % (n, len(R["dots"]), len(R["links"]), len(R["boxes"]))
-    deg = degenerate(case["data"])
+    deg = degenerate(case["data"]) and case["opt"][0] != "big"  # the large family passes an explicit domain
     if acc is not None:
         acc.counters["exports"] += 1
         acc.nontriv += 1
@@ -141,21 +152,30 @@ def judge(case, acc=None):
 
 
 def big_data(n, c):
-    """n labels: clusters of c labels sharing one instant, clusters spread evenly."""
+    """n labels in conflict clusters of c labels each: the labels of a cluster share one instant, clusters are far
+    enough apart (in pixels: the axis is as long as the data, scale factor 1) not to touch each other."""
     data = []
+    pitch = c * 20 + 40  # a label needs 12 + 4 padding + 3 spacing = 19
+    off = c * 10 + 20    # room for half a cluster before the first instant (positions are bounded below by 0)
     k = 0
     while len(data) < n:
         for _ in range(min(c, n - len(data))):
-            data.append({"time": k * 10.0, "width": 12})
+            data.append({"time": float(off + k * pitch), "width": 12})
         k += 1
-    return data
+    return data, float(2 * off + max(0, k - 1) * pitch)
+
+
+def big_options(length):
+    from labella.scale import LinearScale
+    return {"scale": LinearScale(), "direction": "up", "domain": [0, length], "initialWidth": length + 40, "initialHeight": 400,
+            "labella": {"algorithm": "overlap"}}
 
 
 def plan(tier, seed):
     shards = []
     n = 32
     for r in range(n):
-        shards.append({"kind": "ladder", "seed": seed, "mod": n, "rem": r})
+        shards.append({"kind": "ladder", "seed": seed, "tier": tier, "mod": n, "rem": r})
     for r in range(n):
         shards.append({"kind": "sweep", "mod": n, "rem": r})
     if tier == "thorough":
@@ -171,7 +191,7 @@ def run_shard(shard):
     case = None
     if shard["kind"] == "ladder":
         idx = 0
-        for si, st in enumerate(starts(shard["seed"])):
+        for si, st in enumerate(starts(shard["seed"], shard.get("tier", "quick"))):
             for sp in SPANS:
                 for typ in ("datetime", "date"):
                     for n, rev in ((1, False), (2, False), (2, True), (3, False), (3, True)):
@@ -221,7 +241,8 @@ def run_shard(shard):
     else:
         n, c = shard["n"], shard["c"]
         for backend in ("svg", "tex"):
-            case = {"kind": "lin", "data": big_data(n, c), "backend": backend, "opt": ["full", "up", "overlap", 0, True], "budget": 600.0}
+            data, length = big_data(n, c)
+            case = {"kind": "lin", "data": data, "backend": backend, "opt": ["big", length], "budget": 600.0}
             bad = judge(case, acc)
             acc.evals += 1
             acc.states += 1
@@ -242,8 +263,8 @@ def run_shard(shard):
 
 def replay(case):
     if case.get("kind") == "big":
-        full = {"kind": "lin", "data": big_data(case["n"], case["c"]), "backend": case["backend"],
-                "opt": ["full", "up", "overlap", 0, True], "budget": 600.0}
+        data, length = big_data(case["n"], case["c"])
+        full = {"kind": "lin", "data": data, "backend": case["backend"], "opt": ["big", length], "budget": 600.0}
         bad = judge(full)
         if bad and case["c"] > 200 and bad[0] == "EXC:RecursionError":
             return "cluster>200:RecursionError", bad[1]
@@ -254,7 +275,7 @@ def replay(case):
 def snippet(case):
     if case.get("kind") == "big":
         return ("from labella.scale import LinearScale\nfrom labella.timeline import TimelineSVG\n"
-                "n,c=%d,%d\ndata=[{'time':(i//c)*10.0,'width':12} for i in range(n)]\n"
-                "TimelineSVG(data,{'scale':LinearScale(),'direction':'up'}).export()" % (case["n"], case["c"]))
+                "n,c=%d,%d\npitch=c*20+40; off=c*10+20\ndata=[{'time':float(off+(i//c)*pitch),'width':12} for i in range(n)]\nL=data[-1]['time']+off\n"
+                "TimelineSVG(data,{'scale':LinearScale(),'direction':'up','domain':[0,L],'initialWidth':L+40}).export()" % (case["n"], case["c"]))
     return "# kind=%s options form/direction/algorithm/bounds/ticks=%r backend=%s\n# data=%r" % (
         case["kind"], case["opt"], case["backend"], case["data"])
